@@ -263,6 +263,12 @@ func runC08(s c08Script) c08Outcome {
 					return out
 				}
 				last = v
+				// never stale: what the source had handed to the socket 600 ms before the ACK arrived has been received
+				// (loopback, the consumer drains the pipe at once) and must be acknowledged
+				if lb := base + c.SentBy(r.At.Add(-600*time.Millisecond)); v < s.start+lb {
+					out.sig, out.msg = "ack-stale", fmt.Sprintf("%s: %d stream bytes had been sent 600 ms earlier, so at least %d must be acknowledged", where, lb, s.start+lb)
+					return out
+				}
 				// exact once the stream has been idle for more than two ticks
 				if idleSince(c, cmds, r, s, base) > 2300*time.Millisecond && v != s.start+sent {
 					out.sig, out.msg = "ack-not-exact-after-idle", where+": the stream has been idle for > 2 ticks, the ACK must equal start + bytes received"
